@@ -267,7 +267,7 @@ func xmlLeafText(v val.Value) []string {
 	if l, ok := v.(val.Listable); ok && v.Format().IsList() {
 		var out []string
 		for i := 0; i < l.Len(); i++ {
-			out = append(out, l.Item(i).String())
+			out = append(out, xmlLeafText(l.Item(i))[0])
 		}
 		return out
 	}
@@ -277,7 +277,7 @@ func xmlLeafText(v val.Value) []string {
 	case val.NotEmptyType:
 		return []string{""}
 	}
-	return []string{v.String()}
+	return []string{model.Lex(v)}
 }
 
 type xmlChild struct {
